@@ -7,7 +7,7 @@
    arbitrary.  A history is the list of commands of all connections in the order the server takes them up; [trace]
    lists for every command: state before (t_pre), command (t_ev), state after (t_post), answer (t_res), instant. *)
 From Coq Require Import List String NArith Bool.
-From Gluon Require Import Gen.FactsCmdClass Model.AuthGate Proofs.AuthGateProofs Model.UserFiles Proofs.UserFilesProofs.
+From Gluon Require Import Gen.FactsCmdClass Model.AuthGate Proofs.AuthGateProofs Model.UserFiles Proofs.UserFilesProofs Model.UserRegistry Proofs.UserRegistryProofs.
 Import ListNotations.
 Local Open Scope N_scope.
 
@@ -171,6 +171,22 @@ Theorem C18_database_file_per_user_hash_only_refuted :
   exists p1 p2 q, p1 <> p2 /\ opened_file hash_only_keep p1 q = opened_file hash_only_keep p2 q.
 Proof. exact hash_only_collides. Qed.
 Print Assumptions C18_database_file_per_user_hash_only_refuted.
+
+(* ---- RemoveUser and the registry of users (Model/UserRegistry.v) ----
+   Backend.RemoveUser shuts the user down, unregisters it and only then removes its files (order read from the source).
+   Whether or not the removal of the files succeeds, the user is not registered afterwards, no shut-down user is, and
+   the others stay: LOGIN asks the connectors of registered users only, so no session is ever attached to a removed user. *)
+Theorem C18_removed_user_is_unregistered : forall files_ok u r, consistent r ->
+  let r' := fst (remove_user remove_user_unregisters_before_files files_ok u r) in
+  ~ In u (r_users r') /\ consistent r' /\ (forall v, v <> u -> (In v (r_users r') <-> In v (r_users r))).
+Proof. exact code_remove_user_unregisters. Qed.
+Print Assumptions C18_removed_user_is_unregistered.
+
+(* unregistering after the files: a failing removal leaves a shut-down user registered *)
+Theorem C18_removed_user_is_unregistered_late_refuted : exists u r, consistent r /\
+  let r' := fst (remove_user false false u r) in In u (r_users r') /\ In u (r_closed r').
+Proof. exact late_unregister_refuted. Qed.
+Print Assumptions C18_removed_user_is_unregistered_late_refuted.
 
 (* non-vacuity: users 1 (names 10, 11; password 100) and 2 (name 20; password 200), jail time 50.
    Connection 7: FETCH before login -> NO; wrong password, other user's password, unknown name -> three NO, the third
